@@ -1,11 +1,50 @@
-import TinysetModel.Proofs.Consts
-/-! C11 — see /verif/properties.jsonl.  Theorems for this property are being added; the ones
-below are the obligations checked so far. -/
+import TinysetModel.Proofs.CapSpec
+import TinysetModel.Proofs.CoreInst
+/-! C11 — heap footprint stays linear in the member count and is truthfully reported.
+`Hist c g r M` (Proofs/CapSpec.lean) is "`r` was reached by some history of new / collect / insert / remove /
+extend / clone / with_capacity_of / drain / the six operators, and `M` is the largest `len` the set or
+any set it was derived from has had" — with an ARBITRARY generator state at every step, so every outcome
+of the random growth amounts is covered (also always-maximal growth).  Capacity hints are not part of
+`Hist` (the property excludes them).  The ghost bound `CapOK r M : capacity r ≤ 3 M + 5 ∧ len r ≤ M` is
+inductive over every branch of `insert`, including the re-insertion loops of growth and conversion. -/
 namespace C11
 open SC
 
-/-- the model's constants are the ones in the current source -/
-theorem consts_match : TinyC.codec64.splits = Gen.bitsplits64 ∧ TinyC.codec32.splits = Gen.bitsplits32 :=
-  ⟨bitsplits64_match, bitsplits32_match⟩
+variable {D : Type}
+
+/-- every history: the set is well formed and `capacity ≤ 3 M + 5` — generic in the configuration -/
+theorem history_capacity {c : Cfg} (ok : CfgOK c) (cc : CapCfg c) (g : Rng D) {r : Rp} {M : Nat}
+    (h : Hist c g r M) : WF c r ∧ capacity r ≤ 3 * M + 5 ∧ len r ≤ M :=
+  let ⟨wf, hc⟩ := hist_ok ok cc g (fun fuel => coreOK ok g fuel) h; ⟨wf, hc.1, hc.2⟩
+
+/-- SetU64 / Set64 / SetUsize: at most `8 M + 8` words of 8 bytes, plus the 8-byte set value itself:
+    `mem_used ≤ 64 M + 72` for every history and every outcome of the random choices -/
+theorem footprint_u64 (g : Rng D) {r : Rp} {M : Nat} (h : Hist cfg64 g r M) : memUsed cfg64 r ≤ 64 * M + 72 :=
+  hist_footprint64 g (fun fuel => coreOK cfg64_ok g fuel) h
+
+/-- SetU32: at most `8 M + 8` words of 4 bytes plus the set value: `mem_used ≤ 32 M + 40` -/
+theorem footprint_u32 (g : Rng D) {r : Rp} {M : Nat} (h : Hist cfg32 g r M) : memUsed cfg32 r ≤ 32 * M + 40 :=
+  hist_footprint32 g (fun fuel => coreOK cfg32_ok g fuel) h
+
+/-- in element words: the owned block is at most `(8 M + 8)` elements -/
+theorem block_words {c : Cfg} (ok : CfgOK c) (cc : CapCfg c) (hW : c.W = 64 ∨ c.W = 32) (g : Rng D) {r : Rp} {M : Nat}
+    (h : Hist c g r M) : blockBytes c r ≤ (8 * M + 8) * elemBytes c ∧ len r ≤ M :=
+  hist_footprint ok cc hW g (fun fuel => coreOK ok g fuel) h
+
+/-- `mem_used()` is the inline word plus the bytes of the block actually owned (`bytes_for_capacity(cap)`, header included) -/
+theorem mem_used_truthful (c : Cfg) (r : Rp) : memUsed c r = 8 + blockBytes c r := rfl
+theorem block_bytes_heap (c : Cfg) (sz cap bits : Nat) (a : RH.Tbl) :
+    blockBytes c (.heap sz cap bits a) = cap * elemBytes c + headerBytes c := rfl
+
+/-- one insert never multiplies the capacity: the step form of the bound (every fuel, every generator) -/
+theorem insert_step_bound {c : Cfg} (ok : CfgOK c) (cc : CapCfg c) (g : Rng D) (fuel : Nat) :
+    RecCap c (insert c g fuel) := insert_capOK ok cc g (fun f => coreOK ok g f) fuel
+
+/-- the arithmetic facts about both configurations that the bound rests on -/
+theorem cap_cfg_u64 : CapCfg cfg64 := capCfg64
+theorem cap_cfg_u32 : CapCfg cfg32 := capCfg32
+
+/-- non-vacuity: the empty set is a history, and so is any successful insert into it -/
+example : Hist cfg64 detRng .empty 0 := Hist.new
 
 end C11
